@@ -56,27 +56,38 @@ func apGrammarRule(c *core.Ctx, r *core.Report, rule, pkgRel string) {
 		r.Fail("infra.anchor-unresolved", rule+"|accessPathPrepend", "", fmt.Sprintf("access-path producers not found (%d calls, %d separators)", nProd, len(seps)))
 		return
 	}
-	fn := c.Func(pkgRel, "Visitor.addNext")
-	if fn == nil {
-		r.Fail("infra.anchor-unresolved", rule+"|"+pkgRel+".Visitor.addNext", "", "not found")
-		return
+	var roots []*ssa.Function
+	if pkgRel == "analysis/dataflow" {
+		// the access-path library and its users inside the package: every function is a root
+		for _, f := range c.RepoFunctions() {
+			if c.FuncPkgRel(f) == pkgRel && !strings.HasSuffix(c.Fset.Position(f.Pos()).Filename, "_test.go") {
+				roots = append(roots, f)
+			}
+		}
+	} else {
+		fn := c.Func(pkgRel, "Visitor.addNext")
+		if fn == nil {
+			r.Fail("infra.anchor-unresolved", rule+"|"+pkgRel+".Visitor.addNext", "", "not found")
+			return
+		}
+		roots = []*ssa.Function{fn}
 	}
+	fn := roots[0]
 	isAP := func(ii core.InlinedInstr, v ssa.Value) bool {
 		sl := ii.Slice(v)
-		return sl.HasSuffix("AccessPaths") || sl.HasSuffix("RelPath")
+		return sl.HasSuffix("AccessPaths") || sl.HasSuffix("RelPath") || sl.HasSuffix("accessMarks")
 	}
 	got := map[byte]bool{}
 	var where string
-	for _, ii := range core.InlinedInstrs(c, fn, c.Depth(2), func(ins ssa.Instruction) bool {
-		switch x := ins.(type) {
-		case *ssa.BinOp:
-			return x.Op == token.EQL || x.Op == token.NEQ
-		case *ssa.Call:
-			sc := x.Call.StaticCallee()
-			return sc != nil && sc.Pkg != nil && sc.Pkg.Pkg.Path() == "strings" && (sc.Name() == "HasPrefix" || sc.Name() == "CutPrefix")
-		}
-		return false
-	}) {
+	var all []core.InlinedInstr
+	depth := c.Depth(2)
+	if len(roots) > 1 {
+		depth = 0
+	}
+	for _, root := range roots {
+		all = append(all, core.InlinedInstrs(c, root, depth, apPred)...)
+	}
+	for _, ii := range all {
 		switch x := ii.Ins.(type) {
 		case *ssa.BinOp:
 			for _, pair := range [][2]ssa.Value{{x.X, x.Y}, {x.Y, x.X}} {
@@ -129,6 +140,9 @@ func apGrammarRule(c *core.Ctx, r *core.Report, rule, pkgRel string) {
 		}
 	}
 	key := pkgRel + ".Visitor.addNext|separators"
+	if len(roots) > 1 {
+		key = pkgRel + "|access-path-consumers|separators"
+	}
 	if len(got) == 0 {
 		r.OK(rule, key, c.Pos(fn.Pos()), "edge selection by access path uses prefix tests only: no separator to recognise")
 		return
@@ -142,4 +156,15 @@ func apGrammarRule(c *core.Ctx, r *core.Report, rule, pkgRel string) {
 	sort.Strings(missing)
 	r.Check(len(missing) == 0, rule, key, where, "the consumer accepts every separator of the access-path grammar after a matched prefix",
 		"after matching a prefix of an access path the consumer inspects the next character but does not accept the separator(s) "+strings.Join(missing, ", ")+" that the producers (accessPathPrepend) emit: a taint on a whole slice/map/array-typed field (\".payload\") no longer selects the edge labelled \".payload[*]\" and the flow is dropped")
+}
+
+func apPred(ins ssa.Instruction) bool {
+	switch x := ins.(type) {
+	case *ssa.BinOp:
+		return x.Op == token.EQL || x.Op == token.NEQ
+	case *ssa.Call:
+		sc := x.Call.StaticCallee()
+		return sc != nil && sc.Pkg != nil && sc.Pkg.Pkg.Path() == "strings" && (sc.Name() == "HasPrefix" || sc.Name() == "CutPrefix")
+	}
+	return false
 }
